@@ -10,6 +10,7 @@
 // reference accumulated weight is >= 1e-3 of its maximum (weaker than "non-zero").
 #include "vf_fork.hpp"
 #include <cfloat>
+#include <thread>
 
 using namespace vf;
 using namespace dsplib;
@@ -378,6 +379,85 @@ std::vector<Win> windows(int n) {
     for (int i = 0; i < n; ++i) ones[i] = 1.0;
     v.push_back({"rect", ones});
     return v;
+}
+
+
+// condition-aware istft value oracle (same rule as the istft.roundtrip check, see the comment there): every sample
+// covered by complete frames with reference weight above the rounding floor is compared with tol_i.  Returns false
+// after reporting the first failing sample.
+bool istft_value_ok(Sink& s, const arr_real& win, int nfft, int ov, int a, const arr_real& xs, double xmax, const arr_real& xr,
+                    const std::string& label, const std::string& wkey) {
+    const int nwin = win.size(), hop = nwin - ov, nx = xs.size();
+    const int nseg = (nx - ov) / hop, xlen = nwin + (nseg - 1) * hop;
+    const ld clog = 64.0L * log2l((ld)nfft) * (ld)EPS;
+    std::vector<ld> wt((size_t)xlen, 0), taps((size_t)xlen, 0), fmax((size_t)xlen, 0);
+    for (int f = 0; f < nseg; ++f) {
+        ld e2 = 0;
+        for (int i = 0; i < nwin; ++i) {
+            const ld w = (ld)win[i];
+            wt[(size_t)(f * hop + i)] += a ? w * w : w;
+            taps[(size_t)(f * hop + i)] += a ? fabsl(w) : (ld)1;
+            const ld v = (ld)xs[f * hop + i] * w;
+            e2 += v * v;
+        }
+        const ld nf = sqrtl(e2);
+        for (int i = 0; i < nwin; ++i) fmax[(size_t)(f * hop + i)] = std::max(fmax[(size_t)(f * hop + i)], nf);
+    }
+    ld wmax = 0;
+    for (ld v : wt) wmax = std::max(wmax, v);
+    const ld wfloor = 16.0L * nseg * (ld)EPS * std::max(wmax, (ld)1);
+    for (int i = 0; i < xr.size(); ++i)
+        if (!std::isfinite(xr[i])) {
+            s.fail("istft", "nonfinite", fmt("%s: xr[%d] = %g", label.c_str(), i, xr[i]), "only finite values", P().kv("i", i));
+            return false;
+        }
+    double worst = 0;
+    for (int i = 0; i < xlen; ++i) {
+        const ld wi = wt[(size_t)i];
+        if (!(wi > wfloor)) continue;
+        const ld tol = 1e-9L * xmax + clog * fmax[(size_t)i] * taps[(size_t)i] / wi;
+        if (!(tol <= 1e-3L * xmax)) continue;
+        if (i >= xr.size()) {
+            s.fail("istft", "size", fmt("%s: output has %d samples", label.c_str(), xr.size()), fmt("sample %d is covered by a complete frame", i), P().kv("i", i));
+            return false;
+        }
+        const double e = (double)(fabsl((ld)xr[i] - (ld)xs[i]) / tol);
+        if (!(e <= 1.0)) {
+            s.fail("istft", "istft-value", fmt("%s: xr[%d] = %.17g, |diff| = %.3g * tol_i (tol_i = %.3Lg), weight %Lg (max %Lg)", label.c_str(), i, xr[i], e, tol, wi, wmax),
+                   fmt("x[%d] = %.17g within tol_i", i, xs[i]), P().kv("i", i).kv("weight", (double)wi));
+            return false;
+        }
+        worst = std::max(worst, e);
+    }
+    s.worst(wkey, worst);
+    return true;
+}
+
+// window values by name, written INTO an existing buffer (the buffer address never changes)
+void fill_window(arr_real& buf, const std::string& name) {
+    const int n = buf.size();
+    arr_real w;
+    if (name == "hann") w = window::hann(n, false);
+    else if (name == "hamming") w = window::hamming(n, false);
+    else if (name == "blackman") w = window::blackman(n, false);
+    else if (name == "2*hann") w = window::hann(n, false);
+    else {
+        w = arr_real(n);
+        for (int i = 0; i < n; ++i) w[i] = 1.0;
+    }
+    real_t* dst = buf.data();
+    for (int i = 0; i < n; ++i) dst[i] = name == "2*hann" ? 2.0 * w[i] : w[i];
+}
+void fill_signal(arr_real& xs, const std::string& name, double& xmax) {
+    const int nx = xs.size();
+    real_t* dst = xs.data();
+    if (name == "ramp") {
+        for (int i = 0; i < nx; ++i) dst[i] = i + 1;
+        xmax = nx;
+    } else {
+        for (int i = 0; i < nx; ++i) dst[i] = lcg_val(7, (uint64_t)i);
+        xmax = 1;
+    }
 }
 
 }   // namespace
@@ -986,6 +1066,110 @@ int main(int argc, char** argv) {
                                     }
                 }
             }
+        }
+    }
+    // ================================================================ stft.history: istft must not depend on earlier calls
+    // Sequences of 2 (thorough: also 3) stft -> istft round trips in ONE thread with nfft, overlap, signal length and method
+    // fixed; only the window VALUES change, and the window lives in ONE persistent arr_real buffer that is overwritten in
+    // place (same address by construction).  Control sequences keep the window and change only the signal.  Every round
+    // trip must pass the istft value oracle and be bit-identical to the same call made as the first call of a fresh thread.
+    {
+        struct HC {
+            int nfft, ov;
+        };
+        std::vector<HC> cfgs = {{16, 8}, {16, 12}, {64, 48}, {256, 192}, {256, 128}};
+        if (T) {
+            cfgs.push_back({512, 256});
+            cfgs.push_back({1024, 768});
+        }
+        if (asan_pass) cfgs = {{16, 8}, {16, 12}, {64, 48}};
+        const char* wnames[5] = {"hann", "hamming", "blackman", "rect", "2*hann"};
+        const OverlapMethod methods[2] = {OverlapMethod::Ola, OverlapMethod::Wola};
+        const char* mname[2] = {"ola", "wola"};
+        for (const HC& c : cfgs) {
+            if (!ctx.wants("stft.history")) break;
+            const int nfft = c.nfft, ov = c.ov, hop = nfft - ov;
+            const int nx = nfft + 3 * hop + hop - 1;   // not aligned to the hop
+            // windows of the alphabet that iscola accepts for this overlap (either method)
+            std::vector<std::string> ws;
+            for (const char* wn : wnames) {
+                arr_real tmp(nfft);
+                fill_window(tmp, wn);
+                bool acc = false;
+                try {
+                    acc = iscola(tmp, ov, OverlapMethod::Ola) || iscola(tmp, ov, OverlapMethod::Wola);
+                } catch (const std::exception&) {
+                }
+                if (acc) ws.push_back(wn);
+            }
+            // sequences: steps are (window, signal)
+            struct Step {
+                std::string w, x;
+            };
+            std::vector<std::vector<Step>> seqs;
+            for (const auto& w1 : ws)
+                for (const auto& w2 : ws)
+                    if (w1 != w2) seqs.push_back({{w1, "dense"}, {w2, "dense"}});
+            for (const auto& w1 : ws) {   // control: same window, only the signal changes
+                seqs.push_back({{w1, "ramp"}, {w1, "dense"}});
+                seqs.push_back({{w1, "dense"}, {w1, "ramp"}});
+                seqs.push_back({{w1, "dense"}, {w1, "dense"}});
+            }
+            if (T)
+                for (const auto& w1 : ws)
+                    for (const auto& w2 : ws)
+                        for (const auto& w3 : ws)
+                            if (w1 != w2 && w2 != w3) seqs.push_back({{w1, "dense"}, {w2, "dense"}, {w3, "dense"}});
+            for (int im = 0; im < 2; ++im)
+                for (const auto& seq : seqs) {
+                    std::string sname;
+                    for (const Step& st : seq) sname += (sname.empty() ? "" : " > ") + st.w + "/" + st.x;
+                    if (!ctx.take("stft.history", P().kv("nfft", nfft).kv("overlap", ov).kv("method", mname[im]).kv("seq", sname))) continue;
+                    run_case(ctx, boxed, "istft", [&](Sink& s) {
+                        s.nontrivial();
+                        s.note(pfx + fmt("stft.history nfft=%d overlap=%d %s, %d-step sequences", nfft, ov, mname[im], (int)seq.size()));
+                        arr_real wbuf(nfft), xs(nx);   // persistent buffers, overwritten in place
+                        const real_t* waddr = wbuf.data();
+                        for (size_t k = 0; k < seq.size(); ++k) {
+                            double xmax = 1;
+                            fill_window(wbuf, seq[k].w);
+                            fill_signal(xs, seq[k].x, xmax);
+                            if (wbuf.data() != waddr) s.note(pfx + "stft.history: window buffer moved (harness)");
+                            const auto S = stft(xs, wbuf, ov, nfft, StftRange::Onesided);
+                            const arr_real xr = istft(S, wbuf, ov, nfft, StftRange::Onesided, methods[im]);
+                            s.tick();
+                            const std::string label = fmt("step %d of [%s]", (int)k + 1, sname.c_str());
+                            istft_value_ok(s, wbuf, nfft, ov, im, xs, xmax, xr, label, "stft.history: |xr-x|/tol_i");
+                            // the same call as the first call of a fresh thread (fresh thread_local state, own buffers)
+                            arr_real ref;
+                            std::string err;
+                            std::thread th([&] {
+                                try {
+                                    arr_real w2(nfft), x2(nx);
+                                    double xm;
+                                    fill_window(w2, seq[k].w);
+                                    fill_signal(x2, seq[k].x, xm);
+                                    const auto S2 = stft(x2, w2, ov, nfft, StftRange::Onesided);
+                                    ref = istft(S2, w2, ov, nfft, StftRange::Onesided, methods[im]);
+                                } catch (const std::exception& e) {
+                                    err = e.what();
+                                }
+                            });
+                            th.join();
+                            s.tick();
+                            if (!err.empty()) {
+                                s.fail("istft", "exception", "exception in a fresh thread: " + err, "a result");
+                            } else if (!bitsame(xr, ref)) {
+                                int d = 0;
+                                while (d < xr.size() && d < ref.size() && biteq(xr[d], ref[d])) ++d;
+                                s.fail("istft", "history-dependence",
+                                       fmt("%s: differs from the same call made first in a fresh thread at sample %d: %.17g vs %.17g (sizes %d / %d)", label.c_str(), d,
+                                           d < xr.size() ? xr[d] : NAN, d < ref.size() ? ref[d] : NAN, xr.size(), ref.size()),
+                                       "bit-identical result for identical arguments", P().kv("step", (int)k + 1).kv("i", d));
+                            }
+                        }
+                    });
+                }
         }
     }
     return ctx.finish();
